@@ -412,6 +412,42 @@ Theorem C06_flow_template_plumbing :
 Proof. exact flow_template_fact. Qed.
 Print Assumptions C06_flow_template_plumbing.
 
+(* ---- the command layer (helm install / upgrade / upgrade --install / rollback / uninstall) ---- *)
+
+(* every value validateDryRunOptionFlag accepts is a documented "no" (none, false) or a spelling
+   isDryRun treats as dry - for the model's validator (all strings) and for the validator READ
+   FROM pkg/cmd/install.go on this run: evaluated on the literals of its body, their upper-case /
+   capitalised / space-padded variants and the empty string, it lets nothing else through
+   ([cmd_validator_witnesses] lists the offenders, e.g. "TRUE" when it compares with EqualFold),
+   it only compares for equality, and it accepts exactly what the model's validator accepts; the
+   bare flag stands for "client", an empty value becomes "none", and runInstall / the upgrade
+   command call the validator before the action runs *)
+Theorem C06_cmd_accepts_only_known_spellings :
+  (forall s, dry_opt_allowed s = true -> In s ["none"; "false"] \/ is_dry_run false s = true) /\
+  dry_table_problems = [] /\
+  cmd_validator_witnesses = [] /\
+  cmd_validator_exact = true /\
+  (forall s, dry_opt_allowed s = mem s cmd_validator_accepts) /\
+  cmd_bare_dry_run = [("install", cmd_string_opt (Some None)); ("upgrade", cmd_string_opt (Some None))] /\
+  forallb (fun kv => is_dry_run false (snd kv)) cmd_bare_dry_run = true /\
+  cmd_empty_dry_run = [("install", cmd_default_opt ""); ("upgrade", cmd_default_opt ""); ("template", "true")] /\
+  cmd_validated_before_run = [("install.runInstall", true); ("upgrade.newUpgradeCmd", true)].
+Proof. split; [exact cmd_accepts_only_known | exact cmd_validator_fact]. Qed.
+Print Assumptions C06_cmd_accepts_only_known_spellings.
+
+(* a command line that REQUESTS a dry run (the flag is there and its value is not a documented
+   "no": none / false / empty for the string flag, what ParseBool reads as false for the boolean
+   flag of rollback / uninstall) - whatever the value is (case variants, spaces, "1", "yes", ...),
+   whatever else is on the command line, chart, configuration, answers: either the command
+   refuses it before doing anything, or the run is a dry run; never a mutating request or a
+   storage write.  (upgrade --install reads the history first.) *)
+Theorem C06_cmd_dry_request_writes_nothing :
+  forall (rn ns : string) (g : xcfg) (k : cmdkind) (a : dry_arg) (fl : xflags) (c : xchart),
+    cmd_dry_request k a = true ->
+    all_xeff (fun e => x_cluster_mut e = false /\ x_store_write e = false) (x_cmd rn ns g k a fl c).
+Proof. exact x_cmd_no_write. Qed.
+Print Assumptions C06_cmd_dry_request_writes_nothing.
+
 (* the richer model follows the flow: the labels of the effects of a model run (scripted world:
    canned history, every call succeeds) are a path through the Go entry point under the model's
    options - every subset of the listed options x DryRunOption x configuration x history *)
